@@ -284,7 +284,7 @@ def evaluate__arrow_operator(self: XPathToken, context: ta.ContextType = None) \
         func.check_arguments_number(len(tokens))
         items: list[XPathToken] = [
             tk if tk.symbol == '?' and not tk else
-            ValueToken(self.parser, value=tk.evaluate(context)) for tk in tokens
+            ValueToken(self.parser, value=tk.evaluate(copy(context))) for tk in tokens
         ]
         if func.label in ('partial function', 'inline partial function'):
             # Fill the placeholders of the partial function, keeping its fixed arguments
@@ -296,5 +296,5 @@ def evaluate__arrow_operator(self: XPathToken, context: ta.ContextType = None) \
         func.to_partial_function()
         return func
 
-    arguments = [tk.evaluate(context) for tk in tokens]
+    arguments = [tk.evaluate(copy(context)) for tk in tokens]
     return func(*arguments, context=context)
